@@ -57,7 +57,7 @@ def run(ctx):
     summ = dbccheck.parse_summary(os.path.join(out, "summary.txt"))
     # importer range-expansion loop vs the Coq skeleton: records appended to the case file
     skel = os.path.join(out, "skeleton.txt")
-    rcs, logs = vlib.sh([exe, "skeleton", "-seed", str(ctx.seed), "-n", "400" if ctx.tier == "quick" else "20000", "-out", skel],
+    rcs, logs = vlib.sh([exe, "skeleton", "-seed", str(ctx.seed), "-n", str(400 if ctx.tier == "quick" else 20000), "-out", skel],
                         env=dbccheck.harness_env(), timeout=600)
     if rcs == 0 and os.path.exists(skel):
         with open(cases, "a") as fa:
@@ -83,6 +83,13 @@ def run(ctx):
                        "how": "./check C09 --replay <this file>"}, found_input=True)
     # (2) model vs implementation on every record
     compared, mism, by_kind, mlog = dbccheck.run_driver(drv, cases, timeout=3000)
+    nskel = 400 if ctx.tier == "quick" else 20000
+    dbccheck.count_guard(ctx, PID, summ.get("total", -1), compared, need_skeleton=nskel, min_compared_ratio=0.95)
+    ctx.min_evaluations = 9000 if ctx.tier == "quick" else 120000
+    for stream in ("corpus", "valid", "trunc-byte", "trunc-token", "confuse", "wellknown", "noheader", "boundary", "layout", "dupnames",
+                   "rangeforms", "errtok", "valtable", "codepoints", "mux", "random-bytes", "random-cps"):
+        if summ["hist"].get(stream, 0) <= 0:
+            ctx.violation("c09-harness-stream-missing", "the generator stream %s produced no input" % stream, {"hist": summ["hist"]}, found_input=False)
     if mism != 0:
         for what, lines in sorted(by_kind.items()):
             both_syn = [l for l in lines if re.search(r"go \[syn \d+ \d+\] model \[syn \d+ \d+\]", l)]
